@@ -195,6 +195,11 @@ def _parse_eq_to_batch_matmul(eq, shape_a, shape_b):
     sizes = {}
     singletons = set()
 
+    # the indices each term effectively carries, i.e. with non-trivial size,
+    # n.b. an index can be size 1 (broadcast) on one term but not the other
+    a_inds = {ix for ix, d in zip(a_term, shape_a) if d != 1}
+    b_inds = {ix for ix, d in zip(b_term, shape_b) if d != 1}
+
     # parse left term
     seen = set()
     for ix, d in zip(a_term, shape_a):
@@ -202,7 +207,8 @@ def _parse_eq_to_batch_matmul(eq, shape_a, shape_b):
             # everything (including broadcasting) works nicely if simply ignore
             # such dimensions, but we do need to track if they appear in output
             # and thus should be reintroduced later
-            singletons.add(ix)
+            if (ix not in a_inds) and (ix not in b_inds):
+                singletons.add(ix)
             continue
 
         # set or check size
@@ -215,7 +221,7 @@ def _parse_eq_to_batch_matmul(eq, shape_a, shape_b):
             continue
         seen.add(ix)
 
-        if ix in b_term:
+        if ix in b_inds:
             if ix in out:
                 bat_inds.append(ix)
             else:
@@ -227,10 +233,10 @@ def _parse_eq_to_batch_matmul(eq, shape_a, shape_b):
     seen.clear()
     for ix, d in zip(b_term, shape_b):
         if d == 1:
-            singletons.add(ix)
+            # broadcast indices don't appear as singletons in output
+            if (ix not in a_inds) and (ix not in b_inds):
+                singletons.add(ix)
             continue
-        # broadcast indices don't appear as singletons in output
-        singletons.discard(ix)
 
         # set or check size
         if sizes.setdefault(ix, d) != d:
@@ -242,7 +248,7 @@ def _parse_eq_to_batch_matmul(eq, shape_a, shape_b):
             continue
         seen.add(ix)
 
-        if ix not in a_term:
+        if ix not in a_inds:
             if ix in out:
                 b_keep.append(ix)
 
